@@ -35,7 +35,9 @@ RULE = ("one PRNG (VERIF_SEED) drives everything.  ad: every integer number type
         "an SDS just above the tools' 1 MiB buffers; mixed: SD/V objects followed by DF24 / DFR8 rasters (same ref "
         "under different tags), every object changed in turn; fields: hdp dumpvd -f over several Vdatas with partly "
         "shared field names, every 2-subset of the name pool; hdfimport tokens in every spelling (zero-padded, "
-        "signed, exponent form); SDS attribute added / removed, Vdata record appended / field renamed. "
+        "signed, exponent form); SDS attribute added / removed, Vdata record appended / field renamed; Vdata, "
+        "Vdata-field and Vgroup attributes (VSsetattr / Vsetattr) with value changes; Vdatas stored with "
+        "NO_INTERLACE; SDS / global attributes that got longer or shorter with an unchanged prefix. "
         "A case is non-trivial when it lies in the property's domain (comparable objects, in-range values, "
         "NaN-free floats) and the tool ran; distinct by content")
 TRUSTED = ["Coq 8.16.1 kernel (vm_compute only for closed witnesses and finite tables)",
@@ -183,7 +185,7 @@ def gen_file(r, idx):
         for d in dims:
             n *= d
         vals = [rand_val(nt, r) for _ in range(n)]
-        attrs = [gen_attr(r, "at%d" % j) for j in range(r.randrange(0, 3))]
+        attrs = [gen_attr(r, "at%d" % j) for j in range(r.randrange(1, 3))]
         objs.append({"k": "S", "name": "sds%d_%d" % (idx, k), "nt": nt, "dims": dims, "vals": vals, "attrs": attrs})
     for k in range(r.randrange(0, 3)):
         # no native flavour for images: GRcreate drops the flag and multi-byte values come back byte-swapped through
@@ -203,9 +205,20 @@ def gen_file(r, idx):
         for _ in range(nrec):
             for (_, nt, o) in fields:
                 vals += [rand_val(nt, r) for _ in range(o)]
-        objs.append({"k": "V", "name": "vd%d_%d" % (idx, k), "nrec": nrec, "fields": fields, "vals": vals})
+        tattrs = []
+        for j in range(r.randrange(0, 3)):
+            a = gen_attr(r, "va%d_%d_%d" % (idx, k, j))
+            a["findex"] = r.randrange(-1, nf)      # -1: the Vdata itself, >= 0: one of its fields
+            tattrs.append(a)
+        objs.append({"k": "V", "name": "vd%d_%d" % (idx, k), "nrec": nrec, "fields": fields, "vals": vals,
+                     "tattrs": tattrs, "noil": r.randrange(3) == 0})
     for k in range(r.randrange(0, 2)):
-        objs.append({"k": "E", "name": "grp%d_%d" % (idx, k)})
+        tattrs = []
+        for j in range(r.randrange(0, 2)):
+            a = gen_attr(r, "ga%d_%d_%d" % (idx, k, j))
+            a["findex"] = -2
+            tattrs.append(a)
+        objs.append({"k": "E", "name": "grp%d_%d" % (idx, k), "tattrs": tattrs})
     r.shuffle(objs)
     gattrs = [gen_attr(r, "glob%d" % j) for j in range(r.randrange(0, 3))]
     return {"gattrs": gattrs, "objs": objs}
@@ -225,7 +238,7 @@ def desc_text(f):
             out.append("R %s %d %d %d %d %d %s" % (o["name"], o["nt"], o["nc"], o["xd"], o["yd"], len(o["vals"]),
                                                     " ".join(map(str, o["vals"]))))
         elif o["k"] == "V":
-            out.append("V %s %d %d %s %d %s" % (o["name"], o["nrec"], len(o["fields"]),
+            out.append("%s %s %d %d %s %d %s" % ("N" if o.get("noil") else "V", o["name"], o["nrec"], len(o["fields"]),
                                                  " ".join("%s %d %d" % fl for fl in o["fields"]), len(o["vals"]),
                                                  " ".join(map(str, o["vals"]))))
         elif o["k"] == "D":
@@ -234,6 +247,8 @@ def desc_text(f):
             out.append("B %d %d %d %s" % (o["xd"], o["yd"], len(o["vals"]), " ".join(map(str, o["vals"]))))
         else:
             out.append("E %s" % o["name"])
+        for a in o.get("tattrs", []):
+            out.append("T %s %d %s %d %d %s" % (o["name"], a["findex"], a["name"], a["nt"], len(a["vals"]), " ".join(map(str, a["vals"]))))
     return "\n".join(" ".join(l.split()) for l in out) + "\n"
 
 
@@ -276,6 +291,30 @@ def mutations(f, r, idx):
         g = clone(f)
         g["gattrs"][ai]["vals"][p] = nv
         out.append(("attr-G", "global %s[%d] %d -> %d" % (a["name"], p, a["vals"][p], nv), g, None))
+    # value of a Vdata / Vdata-field / Vgroup attribute (stored as lone Vdatas of class Attr0.0)
+    for oi, o in enumerate(f["objs"]):
+        for ai, a in enumerate(o.get("tattrs", [])):
+            p = r.randrange(len(a["vals"]))
+            nv = r.choice(other_vals(a["nt"], a["vals"][p], r)) if a["nt"] != 4 else 97 + (a["vals"][p] - 96) % 26
+            g = clone(f)
+            g["objs"][oi]["tattrs"][ai]["vals"][p] = nv
+            out.append(("attr-" + ("Vgroup" if a["findex"] == -2 else "Vdata" if a["findex"] == -1 else "Vfield"),
+                        "%s:%s[%d] %d -> %d" % (o["name"], a["name"], p, a["vals"][p], nv), g, None))
+    # an attribute that got longer / shorter while its leading elements stayed (string extended, array gained an element)
+    for oi, o in enumerate(f["objs"]):
+        if o["k"] == "S":
+            for ai, a in enumerate(o["attrs"]):
+                g = clone(f)
+                g["objs"][oi]["attrs"][ai]["vals"].append(rand_val(a["nt"], r) if a["nt"] != 4 else 122)
+                out.append(("attr-S-extended", "%s:%s gained an element" % (o["name"], a["name"]), g, None))
+                if len(a["vals"]) > 1:
+                    g = clone(f)
+                    g["objs"][oi]["attrs"][ai]["vals"].pop()
+                    out.append(("attr-S-truncated", "%s:%s lost its last element" % (o["name"], a["name"]), g, None))
+    for ai, a in enumerate(f["gattrs"]):
+        g = clone(f)
+        g["gattrs"][ai]["vals"].append(rand_val(a["nt"], r) if a["nt"] != 4 else 122)
+        out.append(("attr-G-extended", "global %s gained an element" % a["name"], g, None))
     # SDS attribute appended / removed, Vdata record appended, Vdata field renamed (header differences)
     for oi, o in enumerate(f["objs"]):
         if o["k"] == "S":
@@ -663,7 +702,7 @@ def check_hd(env, ctx):
                 seen[mt[0]] = seen.get(mt[0], 0) + 1
                 if seen[mt[0]] <= 2:
                     keep.append(mt)
-            muts = keep[:34]
+            muts = keep[:46]
         for kind, what, g, pos in muts:
             tg = desc_text(g)
             other = env.mk(tg)
